@@ -758,7 +758,10 @@ def selftest(with_mutants=True):
         ok &= hit
     # (4) seeded changes
     if with_mutants:
+        only = [x for x in os.environ.get('FBV_SELFTEST_ONLY', '').split(',') if x]     # a subset of the seeds, by name
         for d in sorted(glob.glob(os.path.join(runner.VERIF, 'seeded', '*'))):
+            if only and os.path.basename(d) not in only:
+                continue
             meta = json.load(open(os.path.join(d, 'meta.json')))
             pid = meta.get('breaks_property') or meta['property']
             if meta.get('obsolete'):
